@@ -409,7 +409,8 @@ def write_if_changed(path, content):
 T5_GROUPS = (("bv", "FnsBv.v"), ("rsn2", "FnsRsn2.v"), ("rsw2", "FnsRsw2.v"), ("rss", "FnsRss.v"),
              ("qv2", "FnsQv2.v"), ("rsq", "FnsRsq.v"), ("qwt", "FnsQwt.v"), ("hqwt", "FnsHqwt.v"), ("wt", "FnsWt.v"), ("da", "FnsDa.v"), ("bvm", "FnsBvm.v"),
              ("utils", "FnsUtils.v"), ("qvb", "FnsQvb.v"), ("qwtnew", "FnsQwtnew.v"), ("wtnew", "FnsWtnew.v"), ("iters", "FnsIters.v"),
-             ("craft", "FnsCraft.v"), ("craft2", "FnsCraft2.v"), ("titers", "FnsTiters.v"))
+             ("craft", "FnsCraft.v"), ("craft2", "FnsCraft2.v"), ("titers", "FnsTiters.v"),
+             ("bvnew", "FnsBvnew.v"), ("danew", "FnsDanew.v"))
 
 
 def main():
